@@ -10,6 +10,7 @@ then see the code the way it was before the extraction.  Functions that already 
 recorded tree are never inlined (the rules reason about those by name).  Recursive new functions
 and new functions used as values (`.map(Self::helper)`) are left alone.  Everything done is
 reported in the evidence (`inlined_new_functions`)."""
+import re
 import copy, json, os, re
 
 MAX_BLOCKS_AFTER = 6000
@@ -172,6 +173,18 @@ def _value_uses(prog, names):
     return used
 
 
+_SCALAR = r"(usize|isize|u8|u16|u32|u64|u128|i8|i16|i32|i64|i128|f64|f32|bool|char|\(\))"
+_SCALAR_TY = re.compile(r"^(%s|std::option::Option<|std::result::Result<|\(|\)|>|,|\s)+$" % _SCALAR)
+
+
+def _scalar_helper(b):
+    if b.nargs == 0 or len(b.bbs) > 60:
+        return False
+    if not all(re.match(r"^%s$" % _SCALAR, b.locals[l] or "") for l in range(1, b.nargs + 1)):
+        return False
+    return bool(_SCALAR_TY.match(b.locals[0] or ""))
+
+
 def normalise(prog, recorded):
     """inline new local functions into their callers; returns a report list"""
     aliased = {b_ for _, b_, _ in getattr(prog, "aliases", [])} | {a for a, _, _ in getattr(prog, "aliases", [])}
@@ -179,9 +192,15 @@ def normalise(prog, recorded):
     for fn, b in prog.bodies.items():
         if b.kind == "Closure" or "{closure" in fn or "::tests::" in fn or "{impl" in fn:
             continue
-        if fn in recorded or fn in aliased:
-            continue
         if b.trait:          # trait impl methods (Drop, Display, From ...) are called through the trait
+            continue
+        if fn in recorded or fn in aliased:
+            # value helpers -- every parameter and the result made of scalars only (index and
+            # bound arithmetic such as `resolve_index_range(len, start, stop)`) -- are part of
+            # the arithmetic of their callers: the rules read them in place whether or not the
+            # recorded tree already had them
+            if _scalar_helper(b):
+                new.add(fn)
             continue
         new.add(fn)
     if not new:
